@@ -188,8 +188,14 @@ func init() {
 
 	// radius-coa — case layout: [0] bit0 = sign the datagram (where its length field allows) so that it is
 	// authentic and reaches attribute parsing and the handlers; rest = UDP payload.
+	fixCoALen := func(p []byte) []byte {
+		if len(p) >= 20 && binary.BigEndian.Uint16(p[2:4]) < 20 {
+			binary.BigEndian.PutUint16(p[2:4], uint16(len(p)))
+		}
+		return p
+	}
 	register(&target{
-		name: "radius-coa",
+		name: "radius-coa", nsel: 1, avoid: fixCoALen, avoidSigs: []string{sigCoA},
 		run: func(data []byte, c *caseInfo) {
 			sel, dg := split(data, 1)
 			dg = append([]byte(nil), dg...)
@@ -218,9 +224,7 @@ func init() {
 			p := genPacket(rt, func(rt *rapid.T) *bld { return bldRadius(rt, []int{43, 43, 43, 40, 40, 1, 44, 0}) }, consts)
 			if vstat.IsListed(sigCoA) {
 				if rapid.IntRange(0, 9).Draw(rt, "keepKFShape") > 0 {
-					if len(p) >= 20 && binary.BigEndian.Uint16(p[2:4]) < 20 {
-						binary.BigEndian.PutUint16(p[2:4], uint16(len(p)))
-					}
+					p = fixCoALen(p)
 				} else {
 					lastGenClass += "+kf-shape"
 				}
@@ -287,9 +291,9 @@ func init() {
 }
 
 func TestPropRadiusCoA(t *testing.T) {
-	runProp(t, 4000, 80000, "radius-coa")
+	runProp(t, 3000, 60000, "radius-coa")
 	vstat.Note("radius-coa:batches-with-lost-stop-datagram", coaLost)
 }
 func TestPropRadiusClientParse(t *testing.T) {
-	runProp(t, 9000, 180000, "radius-client-parse", "radius.parseAttributes")
+	runProp(t, 7000, 140000, "radius-client-parse", "radius.parseAttributes")
 }
